@@ -52,7 +52,7 @@ Definition decode_op (code : N) (args : list garg) : option op :=
 
 Definition enc_call (c : call) : bytes :=
   match c with
-  | (id, tag, k, v) => N.of_nat (length id) :: id ++ tag :: N.of_nat (length k) :: k ++ v
+  | (id, tag, k, v) => N.of_nat (length id) :: id ++ tag :: N.of_nat (length k / 256) :: N.of_nat (length k mod 256) :: k ++ v
   end.
 
 Definition enc_ret (r : ret) : list obs :=
